@@ -75,6 +75,9 @@ type V struct {
 	Ord    int      // container: stream ordinal (-1 unknown); Ref: ordinal written
 	Static bool     // projected values: the position is statically typed on the Go side (struct field, element of a typed container)
 	Field  bool     // projected values: the node sits directly in a struct field (first occurrence)
+	// EmptyMap: a Null that stands for an empty (or nil) map in a statically typed position; another writer
+	// (Java for an empty HashMap) sends 'H' 'Z' there, which takes a reference ordinal
+	EmptyMap bool
 	W      *Wire
 }
 
